@@ -73,12 +73,18 @@ const dirtyRa = "   foo\n##!>   assemble\nbar\n ##!<\n\n\n"
 func putCRSTree(w *World, root string, t *rapid.T, label string) {
 	w.Put(root+"/regex-assembly/942100.ra", dirtyRa)
 	w.Put(root+"/regex-assembly/942110.ra", "  ##!+ i\n  baz[a-c]\n")
+	// formatted, but with an upper-case class under the i flag: format --check reports it (lint) and must still not write
+	w.Put(root+"/regex-assembly/942180.ra", raHeader+"\n##!+ i\nfoo[A-Z]bar\n")
+	w.Put(root+"/regex-assembly/942190.ra", "   ##!+ i\n qux[A-Z]\n")
 	w.Put(root+"/regex-assembly/include/inc1.ra", "  abs\nbes\n")
 	w.Put(root+"/regex-assembly/exclude/exc1.ra", "  bes\n")
 	w.Put(root+"/regex-assembly/toolchain.yaml", crsLikeConfig)
 	w.Put(root+"/regex-assembly/notes.txt", dirtyRa)
 	w.Put(root+"/regex-assembly/942100.txt", dirtyRa)
 	w.Put(root+"/regex-assembly/942100.ra.bak", dirtyRa)
+	w.Put(root+"/regex-assembly/.editorconfig", "root = true\n")
+	w.Put(root+"/rules/.gitkeep", "")
+	w.Put(root+"/tests/regression/tests/.hidden.yaml", dirtyYaml)
 	w.Put(root+"/rules/REQUEST-942-APPLICATION-ATTACK-SQLI.conf", dirtyConf)
 	w.Put(root+"/rules/REQUEST-941-APPLICATION-ATTACK-XSS.conf", strings.ReplaceAll(dirtyConf, "9421", "9411"))
 	w.Put(root+"/rules/notes-942.conf.txt", dirtyConf)
@@ -123,6 +129,7 @@ func genC15(t *rapid.T, tier string) (*World, any) {
 		{"compare-all", []string{"regex", "compare", "--all"}, ""},
 		{"compare-all-gh", []string{"-o", "github", "regex", "compare", "--all"}, ""},
 		{"format-check", []string{"regex", "format", "--check", "942100"}, ""},
+		{"format-check-lint", []string{"regex", "format", "--check", pick(t, []string{"942180", "942190"}, "lintarg")}, ""},
 		{"format-check-all", []string{"regex", "format", "--check", "--all"}, ""},
 		{"format-check-all-gh", []string{"-o", "github", "regex", "format", "-c", "-a"}, ""},
 		{"format", []string{"regex", "format", "942110"}, ""},
